@@ -1,7 +1,7 @@
 (* C01 — proofs about the file-lock model (coq/C01/Model.v). *)
 From Coq Require Import List Bool Arith Lia.
 Import ListNotations.
-From GU Require Import C01.Model.
+From GU Require Import C01.Facts C01.Model.
 
 
 (* ---------- lists ---------- *)
@@ -87,7 +87,7 @@ Proof. intros [? ?] [? ?]. split; [congruence|auto]. Qed.
 Lemma le_upd w o r : o <> OMkdir -> le w (upd w o r).
 Proof.
   intros Ho. destruct o; try congruence; destruct r; simpl; try apply le_refl;
-  try destruct stale; simpl; split; auto.
+  try destruct (canon age); simpl; split; auto.
 Qed.
 
 Definition RO {A} (p : prog A) : Prop := forall w, Safe (fun w' _ => le w w') w p.
@@ -149,19 +149,6 @@ Proof. ro_start is_empty. ro. Qed.
 Lemma RO_ls_dir : RO ls_dir.
 Proof. ro_start ls_dir. ro. Qed.
 #[export] Hint Resolve RO_ls_dir : ro.
-
-(* is_stale answers true only after a Stat that returned a stale time stamp: the release window is open *)
-Lemma safe_is_stale w : Safe (fun w' b => le w w' /\ (b = true -> win w' = true)) w is_stale.
-Proof.
-  unfold is_stale. eapply Safe_bind; [apply RO_ls_dir|]. simpl. intros w' l Hle.
-  assert (forall p, Safe (fun w'' b => le w w'' /\ (b = true -> win w'' = true)) w'
-            (Do (OStat p) (fun r => match r with RIsDir s | RIsFile s => Ret s | _ => Ret false end))) as Hstat.
-  { intros p. constructor; [discriminate|]. intros r.
-    assert (le w (upd w' (OStat p) r)) by (eapply le_trans; [exact Hle|apply le_upd; discriminate]).
-    destruct r; try (constructor; split; [assumption|discriminate]);
-      destruct stale; constructor; (split; [assumption|]); simpl; auto; discriminate. }
-  destruct l as [[|n]|]; [apply Hstat|apply Hstat|]. constructor. split; [assumption|discriminate].
-Qed.
 
 (* programs that may remove the lock directory, run with the window open *)
 Definition ROW {A} (p : prog A) : Prop :=
@@ -225,15 +212,63 @@ Qed.
 Lemma ROW_rm_dir : ROW rm_dir.
 Proof. apply ROW_rm_with, ROW_clean_dir. Qed.
 
+(* ================= the programs that depend on the facts read from lockfile.go ================= *)
+Lemma thr_sound_canon F p a : thr_sound F p = true -> thr F p a = true -> canon a = true.
+Proof.
+  unfold thr_sound, thr, canon, cmp. destruct (thr_op F); try discriminate; intros H1 H2.
+  - apply Nat.leb_le in H1. apply Nat.ltb_lt in H2. apply Nat.ltb_lt. lia.
+  - apply Nat.leb_le in H1. apply Nat.leb_le in H2. apply Nat.ltb_lt. lia.
+Qed.
+
+Section WithFacts.
+Variable F : lockfacts.
+Hypothesis Hrel : cond_release F = true.
+
+Local Notation is_stale := (Model.is_stale F).
+Local Notation unlock_attempts := (Model.unlock_attempts F).
+Local Notation unlock := (Model.unlock F).
+Local Notation try_lock := (Model.try_lock F).
+Local Notation prog_of := (Model.prog_of F).
+Local Notation finish := (Model.finish F).
+Local Notation exec := (Model.exec F).
+Local Notation run := (Model.run F).
+
+Lemma rel_facts :
+  is_ls_error_stale F = false /\ is_empty_stat_error_stale F = false /\ is_file_stat_error_stale F = false /\
+  thr_sound F (is_empty_period F) = true /\ thr_sound F (is_files_period F) = true.
+Proof.
+  unfold cond_release in Hrel. repeat (apply andb_true_iff in Hrel as [Hrel ?]).
+  repeat match goal with H : negb _ = true |- _ => apply negb_true_iff in H end. auto.
+Qed.
+
+(* is_stale answers true only after a Stat that returned a time stamp older than two periods: the release window is open *)
+Lemma safe_is_stale w : Safe (fun w' b => le w w' /\ (b = true -> win w' = true)) w is_stale.
+Proof.
+  destruct rel_facts as (H1 & H2 & H3 & H4 & H5).
+  unfold Model.is_stale. eapply Safe_bind; [apply RO_ls_dir|]. simpl. intros w' l Hle.
+  assert (forall p pf e, thr_sound F pf = true -> e = false ->
+            Safe (fun w'' b => le w w'' /\ (b = true -> win w'' = true)) w'
+            (Do (OStat p) (fun r => match r with RIsDir a | RIsFile a => Ret (thr F pf a) | _ => Ret e end))) as Hstat.
+  { intros p pf e Hs ->. constructor; [discriminate|]. intros r.
+    assert (le w (upd w' (OStat p) r)) by (eapply le_trans; [exact Hle|apply le_upd; discriminate]).
+    destruct r; try (constructor; split; [assumption|discriminate]);
+      (constructor; split; [assumption|]); intros Ht; simpl; rewrite (thr_sound_canon F pf age Hs Ht); reflexivity. }
+  destruct l as [[|n]|]; [apply Hstat; assumption|apply Hstat; assumption|].
+  constructor. split; [assumption|]. rewrite H1. discriminate.
+Qed.
+
 Lemma unlock_S m : unlock_attempts (S m) =
   (r <- rm_dir ;; match r with Err => unlock_attempts m
-                  | Ok _ => e <- exists_ PDir ;; if e then unlock_attempts m else Ret AOk end).
+                  | Ok _ => if ul_recheck_exists F
+                            then e <- exists_ PDir ;; if e then unlock_attempts m else Ret AOk
+                            else Ret AOk end).
 Proof. reflexivity. Qed.
 
 Lemma ROW_unlock_attempts n : ROW (unlock_attempts n).
 Proof.
   induction n as [|n IH]; intros w0 w Hw Hle; [apply RO_ret; assumption|]. rewrite unlock_S.
   apply ROW_use; [apply ROW_rm_dir|assumption|assumption|]. intros r w1 Hle1. destruct r; [|apply IH; assumption].
+  destruct (ul_recheck_exists F); [|apply RO_ret; assumption].
   apply RO_use; [auto with ro|assumption|]. intros e w2 Hle2. destruct e; [apply IH; assumption|apply RO_ret; assumption].
 Qed.
 
@@ -250,7 +285,9 @@ Lemma try_lock_eq fuel ovr wt : try_lock fuel ovr wt =
             match fuel with
             | 0 => Ret AOther
             | S f =>
-                s2 <- is_stale ;;
+                s2 <- (match tl_override_call F with
+                       | RelIfStale => if ris_rechecks_stale F then is_stale else Ret true
+                       | RelUnlock => Ret true end) ;;
                 if s2 then
                   if wt then Ret ACancelled
                   else (_ <- unlock ;; Chk (try_lock f ovr wt))
@@ -271,31 +308,40 @@ Proof.
   - eapply Safe_bind; [apply safe_is_stale|]. cbv beta. intros w' s [_ _].
     destruct s; [destruct ovr|]; apply Hne; discriminate.
   - constructor; [discriminate|]. intros r. constructor. intros _. destruct r; reflexivity.
-  - eapply Safe_bind; [apply safe_is_stale|]. cbv beta. intros w' s [_ _].
+  - eapply Safe_bind; [apply safe_is_stale|]. cbv beta. intros w' s [_ Hs].
     destruct s; [|apply Hne; discriminate].
     destruct ovr; [|apply Hne; discriminate].
-    eapply Safe_bind; [apply safe_is_stale|]. cbv beta. intros w'' s2 [_ Hs2].
+    (* the release: through ReleaseIfStale with its second look, or at once — the window is open either way *)
+    assert (Safe (fun w'' (b : bool) => b = true -> win w'' = true) w'
+              (match tl_override_call F with
+               | RelIfStale => if ris_rechecks_stale F then is_stale else Ret true
+               | RelUnlock => Ret true end)) as Hrelease.
+    { destruct (tl_override_call F); [destruct (ris_rechecks_stale F)|].
+      - eapply Safe_weaken; [|apply safe_is_stale]. cbv beta. intros ? ? [_ ?]. assumption.
+      - constructor. auto.
+      - constructor. auto. }
+    eapply Safe_bind; [exact Hrelease|]. cbv beta. intros w'' s2 Hs2.
     destruct s2; [|constructor; apply IH].
     destruct wt; [apply Hne; discriminate|].
-    eapply Safe_bind; [apply (ROW_unlock_attempts 10 w'' w'' (Hs2 eq_refl) (le_refl w''))|]. cbv beta. intros w3 _ _. constructor. apply IH.
+    eapply Safe_bind; [apply (ROW_unlock_attempts (ul_attempts F) w'' w'' (Hs2 eq_refl) (le_refl w''))|]. cbv beta. intros w3 _ _. constructor. apply IH.
 Qed.
 
 Lemma safe_unlock w : win w = true -> Safe (fun _ _ => True) w unlock.
 Proof.
   intros Hw. apply Safe_weaken with (Q := fun w'' (_ : ares) => le w w''); [intros; exact I|].
-  exact (ROW_unlock_attempts 10 w w Hw (le_refl w)).
+  exact (ROW_unlock_attempts (ul_attempts F) w w Hw (le_refl w)).
 Qed.
 
 Definition Qof (a : api) : ghost -> ares -> Prop := if is_acquire a then Qacq else fun _ _ => True.
 
 Lemma safe_prog_of_acquire a ovr w : is_acquire a = true -> Safe (Qof a) w (prog_of a ovr).
-Proof. intros H. destruct a; try discriminate H; unfold Qof, prog_of; cbn [is_acquire]; apply safe_try_lock. Qed.
+Proof. intros H. destruct a; try discriminate H; unfold Qof, Model.prog_of; cbn [is_acquire]; apply safe_try_lock. Qed.
 
 Lemma safe_prog_of_unlock ovr w : win w = true -> Safe (Qof Unlock) w (prog_of Unlock ovr).
 Proof. intros H. unfold Qof. cbn [is_acquire]. exact (safe_unlock w H). Qed.
 
 (* ---------- the interleaving semantics, in relational form ---------- *)
-Local Opaque prog_of.
+Local Opaque Model.prog_of.
 
 Definition with_cur (x : cst) (c : option (api * prog ares)) : cst :=
   {| ovr := ovr x; cur := c; holds := holds x; alive := alive x; eng := eng x; hbs := hbs x; gh := gh x |}.
@@ -309,7 +355,7 @@ Proof.
   destruct a, v; inversion H; subst; clear H; simpl; repeat split; auto.
 Qed.
 
-Inductive mstep (s : state) (c : nat) (stale : bool) (s' : state) : Prop :=
+Inductive mstep (s : state) (c : nat) (stale : nat) (s' : state) : Prop :=
 | MStep x a o k f' r x2 ret
     (Hx : nth_error (cs s) c = Some x)
     (Hcur : cur x = Some (a, Do o k))
@@ -416,7 +462,7 @@ Definition progs_safe (s : state) : Prop :=
 Definition Inv (s : state) : Prop := (bad s = false -> excl s) /\ holder_eng s /\ progs_safe s.
 
 Lemma mk_upd w o r : mk (upd w o r) = true -> (o = OMkdir /\ r = ROk) \/ mk w = true.
-Proof. destruct o, r; simpl; auto; destruct stale; simpl; auto. Qed.
+Proof. destruct o, r; simpl; auto; destruct (canon age); simpl; auto. Qed.
 
 Lemma eng_not_created (o : op) (r : res) (A : Type) (a b : A) :
   ~ (o = OMkdir /\ r = ROk) -> match o, r with OMkdir, ROk => a | _, _ => b end = b.
@@ -558,26 +604,4 @@ Lemma mkdir_exclusive_l ovrs its s os :
   run (init ovrs) its = Some (s, os) -> bad s = false -> live_holders s <= 1.
 Proof. intros H Hb. destruct (Inv_run ovrs its s os H) as (Hex & Hhe & _). apply excl_holders; auto. Qed.
 
-(* ---------- the full statement is false of the faithful model: K1 and K2 ---------- *)
-From GU Require Import C01.Witness.
-
-Lemma refuted_K1_l : exists ovrs its s,
-  final ovrs its = Some s /\ respects_oracle (init ovrs) its = true /\
-  forallb (fun it => match it with IStep _ _ true => false | _ => true end) its = true /\   (* no stale verdict at all *)
-  forallb (fun it => match it with IKill _ => false | _ => true end) its = true /\          (* nobody dies *)
-  2 <= live_holders s /\ bad s = true.
-Proof. exists k1_ovr, (map item_of k1_entries). eexists. vm_compute. repeat split; auto. Qed.
-
-Lemma refuted_K2_l : exists ovrs its s,
-  final ovrs its = Some s /\ respects_oracle (init ovrs) its = true /\
-  2 <= live_holders s /\ bad s = true.
-Proof. exists k2_ovr, (map item_of k2_entries). eexists. vm_compute. repeat split; auto. Qed.
-
-(* K1b: the holder begins to unlock (its heartbeat stops), an overriding contender takes the silent lock over, the slow
-   Unlock then removes the taker's directory.  The oracle is respected: the stale verdict is given after the holder
-   has begun to release. *)
-Lemma refuted_K1b_l : exists ovrs its s,
-  final ovrs its = Some s /\ respects_oracle (init ovrs) its = true /\
-  forallb (fun it => match it with IKill _ => false | _ => true end) its = true /\
-  2 <= live_holders s /\ bad s = true.
-Proof. exists k1b_ovr, (map item_of k1b_entries). eexists. vm_compute. repeat split; auto. Qed.
+End WithFacts.
